@@ -165,4 +165,10 @@ PROPS = {
             R("h23", "c16", "TestC16_Topic", (10, 1, 900), (300, 4, 3000)),
         ],
     },
+    "C08": {
+        "level": "exploration",
+        "units": [
+            R("h26", "c08", "TestC08_Scripts", (2000, 8, 1500), (150000, 16, 8000)),
+        ],
+    },
 }
